@@ -35,6 +35,7 @@ def set_pre(spec):
     the same instances (simulate-then-synthesise in the other order)."""
     _tls.pre = int(spec.get("pre", 0)) if isinstance(spec, dict) else 0
     _tls.prelude = spec.get("prelude") if isinstance(spec, dict) else None
+    _tls.reset_less = bool(spec.get("reset_less_domain")) if isinstance(spec, dict) else False
     return _tls.pre
 
 
@@ -48,9 +49,9 @@ def simulate(top, tb):
         # elaborate once on the case's own account first: a refusal at elaboration belongs to the
         # case that asked for it, and is raised where its check expects it
         Fragment.get(top, None)
-        return job.group.request(job, top, tb, getattr(_tls, "pre", 0), prelude)
-    if prelude:
-        return _simulate_together([_Solo(top, tb, getattr(_tls, "pre", 0), prelude)])
+        return job.group.request(job, top, tb, getattr(_tls, "pre", 0), prelude, getattr(_tls, "reset_less", False))
+    if prelude or getattr(_tls, "reset_less", False):
+        return _simulate_together([_Solo(top, tb, getattr(_tls, "pre", 0), prelude, getattr(_tls, "reset_less", False))])
     for _ in range(getattr(_tls, "pre", 0)):
         Fragment.get(top, None)
     sim = Simulator(top)
@@ -80,6 +81,13 @@ def undriven_inputs(top):
     frag = Fragment.get(top, None)
     used, driven = SignalSet(), SignalSet()
     todo = [frag]
+    try:
+        return _walk(todo, used, driven, MemoryInstance)
+    except NotImplementedError:
+        return []       # a design that refers to ClockSignal()/ResetSignal(): no garbage phase, just the reset
+
+
+def _walk(todo, used, driven, MemoryInstance):
     while todo:
         f = todo.pop()
         for _domain, stmts in f.statements.items():
@@ -148,8 +156,8 @@ class _Group:
     def __init__(self):
         self.jobs = []
 
-    def request(self, job, top, tb, pre, prelude=None):
-        job.req = (top, tb, pre, prelude)
+    def request(self, job, top, tb, pre, prelude=None, reset_less=False):
+        job.req = (top, tb, pre, prelude, reset_less)
         job.parked.set()
         job.wake.wait(); job.wake.clear()
         if job.abort:
@@ -212,6 +220,9 @@ def _simulate_together(jobs):
     cd = None
     if any(j.req[3] for j in jobs):
         top.domains.sync = cd = ClockDomain()
+    elif any(len(j.req) > 4 and j.req[4] for j in jobs):
+        # a clock domain without reset (components must not depend on there being one)
+        top.domains.sync = ClockDomain(reset_less=True)
     for j in jobs:
         top.submodules[f"case{j.index}"] = j.req[0]
     for _ in range(max(j.req[2] for j in jobs)):
